@@ -202,13 +202,25 @@ func c11exec(c *h.Ctx, cs *h.Case) {
 		} else if k >= 300 {
 			// a run of the recording protocol with a Shutdown() that returns an error
 			t = fix.ShutErrTokenFor(t)
+		} else if k >= 240 && k < 260 {
+			// the protocol constructor returns (nil, nil)
+			t = t.Clone()
+			t.ProtoID = onet.ProtocolNameToID(fix.NilProtoName)
+		} else if k >= 220 && k < 240 {
+			// a service's NewProtocol returns an error
+			t = t.Clone()
+			t.ServiceID, t.ProtoID = c11SvcID, c11ErrProt
+		} else if k >= 200 && k < 220 {
+			// a service's NewProtocol panics
+			t = t.Clone()
+			t.ServiceID, t.ProtoID = c11SvcID, c11PanicProt
 		}
 		mu.Lock() // the handlers' OnEnter reads the map
 		tokens[k] = t
 		mu.Unlock()
 		return t
 	}
-	failing := func(k int) bool { return k >= 500 && k < 1000 }
+	failing := func(k int) bool { return (k >= 500 && k < 1000) || (k >= 200 && k < 260) }
 	// a failed construction must leave nothing listed: nobody holds the node, it can never declare itself done
 	checkFailed := func(k int) {
 		if tok, ok := tokens[k]; ok && failing(k) && ov.VerifInstanceState(tok) == "live" {
@@ -373,7 +385,7 @@ func c11exec(c *h.Ctx, cs *h.Case) {
 				cs.Impl = append(cs.Impl, "disabled")
 				return true
 			}
-			if tk[1] == "threadc" && k < 500 {
+			if tk[1] == "threadc" && k < 1000 && !failing(k) {
 				creates := ov.VerifInstanceState(tokOf(k)) == "none"
 				mu.Lock()
 				gate[tokOf(k).ID().String()] = key
@@ -588,7 +600,8 @@ func c11exec(c *h.Ctx, cs *h.Case) {
 			cs.Impl = append(cs.Impl, obs())
 		case len(tk) == 3 && tk[1] == "localstart":
 			k, _ := strconv.Atoi(tk[2])
-			if _, ok := tokens[k]; ok || k >= 1000 {
+			if _, ok := tokens[k]; ok || k >= 1000 || (k >= 200 && k < 260) {
+				// 200-259: instances only a message creates
 				cs.Impl = append(cs.Impl, "disabled")
 				return true
 			}
@@ -777,6 +790,15 @@ func c11gen(c *h.Ctx, yield func(*h.Case)) {
 	yield(&h.Case{Class: "corpus-failed-ctor", Ops: []string{"c11 localstart 1", "c11 localstart 500", "c11 wait", "c11 peerreq", "c11 arrive 1 5", "c11 thread 1 5", "c11 done 500", "c11 done 1"}})
 	yield(&h.Case{Class: "corpus-failed-ctor", Ops: []string{"c11 localstart 1", "c11 arrive 500 5", "c11 thread 500 5", "c11 arrive 500 6", "c11 thread 500 6", "c11 wait", "c11 peerreq", "c11 done 1"}})
 	yield(&h.Case{Class: "corpus-failed-ctor", Ops: []string{"c11 localstart 1", "c11 done 1", "c11 arrive 501 5", "c11 thread 501 5", "c11 peerreq"}})
+	// the three ways a constructor produces no instance for an arrival — a service's NewProtocol panics (200) or returns an
+	// error (220), the protocol constructor returns (nil, nil) (240): nothing stays listed, the token is finished, a later
+	// message is dropped without a second constructor call, the tree is released; alone, and while instance 1 uses the tree
+	for _, k := range []int{200, 220, 240} {
+		yield(&h.Case{Class: "corpus-no-instance", Ops: []string{"c11 localstart 1", "c11 done 1", fmt.Sprintf("c11 arrive %d 5", k), fmt.Sprintf("c11 thread %d 5", k),
+			fmt.Sprintf("c11 arrive %d 6", k), fmt.Sprintf("c11 thread %d 6", k), "c11 peerreq"}})
+		yield(&h.Case{Class: "corpus-no-instance", Ops: []string{"c11 localstart 1", fmt.Sprintf("c11 arrive %d 5", k+1), fmt.Sprintf("c11 thread %d 5", k+1), "c11 wait", "c11 peerreq",
+			fmt.Sprintf("c11 arrive %d 6", k+1), fmt.Sprintf("c11 thread %d 6", k+1), "c11 arrive 1 7", "c11 thread 1 7", "c11 done 1"}})
+	}
 	for n := 0; n < c.Pick(28, 400); n++ {
 		cs := &h.Case{Class: "random"}
 		m := 0
@@ -828,7 +850,10 @@ func c11gen(c *h.Ctx, yield func(*h.Case)) {
 				if len(known) > 0 && r.Intn(4) > 0 {
 					k = known[r.Intn(len(known))]
 				} else {
-					switch r.Intn(8) {
+					switch r.Intn(9) {
+					case 2:
+						k = 200 + 20*r.Intn(3) + next%20 // panic / error of a service, (nil, nil) of the constructor
+						c.Count("op=arrive-no-instance")
 					case 0:
 						k = 500 + next // the constructor fails
 						c.Count("op=arrive-failing-ctor")
